@@ -48,6 +48,10 @@ def _rslice_ragged_cases(shapes):
             yield {"op": "rslice", "input": "ragged", "form": "func", "lengths": lengths, "starts": None, "ends": list(combo)}
         for combo in itertools.product(*[range(0, l + 1) for l in lengths]):
             yield {"op": "rslice", "input": "ragged", "form": "func", "lengths": lengths, "starts": list(combo), "ends": None}
+            if lengths:
+                for how in ("tail", "reversed", "cols"):
+                    yield {"op": "rslice", "input": "ragged-lazy", "lazy": how, "form": "func", "lengths": lengths,
+                           "starts": list(combo), "ends": [-(c % 2) if l else 0 for c, l in zip(combo, lengths)] if how != "cols" else None}
 
 
 def _masks(size):
@@ -161,7 +165,7 @@ def cases(tier, seed):
 
 def _window_lengths(case):
     """lengths of the rows the windows of a ragged_slice case are cut from"""
-    if case["input"] == "ragged":
+    if case["input"] in ("ragged", "ragged-lazy"):
         return list(case["lengths"])
     if case["input"] == "1d":
         return [case["size"]] * len(case["starts"] if case["starts"] is not None else case["ends"])
@@ -363,6 +367,18 @@ def _check(case):
             arr = mk(rows, "int64")
             src = rows
             shown = f"RaggedArray({rows})"
+        elif inp == "ragged-lazy":
+            # the same rows, but as a not yet materialised selection of a larger array (rows sit at other offsets there)
+            rows = rows_for(case["lengths"], base=10)
+            how = case.get("lazy", "tail")
+            if how == "tail":
+                arr = mk([[1, 2, 3]] + rows, "int64")[1:]
+            elif how == "reversed":
+                arr = mk(rows[::-1], "int64")[::-1]
+            else:
+                arr = mk([[7] + r for r in rows], "int64")[:, 1:]
+            src = rows
+            shown = f"(lazy selection '{how}' with rows {rows})"
         elif inp == "1d":
             data = list(range(10, 10 + case["size"]))
             arr = np.array(data, dtype=np.int64)
